@@ -79,6 +79,12 @@ AssignLikeAfterOperator(sh) == \E i \in 2..Len(sh.segs) : HasAssignLike(sh.segs[
 \* (also seen at top level after `stmt;`; the enabling condition is the continuation inside a chain)
 ContinuationChainInBlock(sh) == Len(sh.segs) >= 2 /\ \E i \in 1..Len(sh.segs) : sh.segs[i].cont > 0
 
+\* a chain in an indented block one of whose segments holds a lone dash word (`-`, `--`): the segment
+\* also reads as a Python subtraction, is wrapped by column window in the context-aware phase, and the
+\* window is computed wrongly: other segments of the chain are dropped
+HasDashWord(s) == (\E i \in 1..Len(s.atoms) : s.atoms[i] \in {"dash", "ddash"}) \/ (\E i \in 1..Len(s.pipe) : s.pipe[i] \in {"dash", "ddash"})
+DashWordChainInBlock(sh) == Len(sh.segs) >= 2 /\ sh.pos.blocks # <<>> /\ \E i \in 1..Len(sh.segs) : HasDashWord(sh.segs[i])
+
 (* ---- actions ----------------------------------------------------------------------------- *)
 Init == shape = [segs |-> <<>>, ops |-> <<>>, pos |-> [semi |-> "none", comment |-> FALSE, blocks |-> <<>>]] /\ res = [same |-> TRUE, flagsame |-> TRUE, dev |-> ""] /\ phase = "idle"
 
@@ -90,6 +96,8 @@ Judge(sh) ==
         /\ res' = [same |-> FALSE, flagsame |-> TRUE, dev |-> "Dev_AssignLikeAfterOperator"]
      \/ /\ "Dev_ContinuationChainInBlock" \in Deviations /\ ContinuationChainInBlock(sh)
         /\ \E fs \in BOOLEAN : res' = [same |-> FALSE, flagsame |-> fs, dev |-> "Dev_ContinuationChainInBlock"]
+     \/ /\ "Dev_DashWordChainInBlock" \in Deviations /\ DashWordChainInBlock(sh)
+        /\ \E fs \in BOOLEAN : res' = [same |-> FALSE, flagsame |-> fs, dev |-> "Dev_DashWordChainInBlock"]
      \/ /\ "Dev_BoolopFlagDependsOnParsePath" \in Deviations /\ Len(sh.segs) >= 2
         /\ res' = [same |-> TRUE, flagsame |-> FALSE, dev |-> "Dev_BoolopFlagDependsOnParsePath"]
 
